@@ -208,6 +208,8 @@ class Interp(object):
         forks = self._pending_forks
         self._pending_forks = []
         sink(st, val)
+        forks = forks + self._pending_forks
+        self._pending_forks = []
         return [st] + forks
 
     def stmt_Assign(self, node, st, fr):
@@ -1162,8 +1164,22 @@ class Interp(object):
         finally:
             st.inline_depth = depth
         if len(outs) != 1 or outs[0] is not st:
-            st.env = saved_env
-            raise Unsupported("inlined function %s branches on symbolic data: it needs a contract" % qualname)
+            # the inlined callee forked: accepted when exactly one path completes normally and the
+            # others raise (validation code); the raising paths become forks of the caller
+            normal = [s for s in outs if s.status in ('run', 'return')]
+            raising = [s for s in outs if s.status == 'raise']
+            if len(normal) != 1 or len(normal) + len(raising) != len(outs):
+                st.env = saved_env
+                raise Unsupported("inlined function %s branches on symbolic data: it needs a contract" % qualname)
+            for rs in raising:
+                if rs is st:
+                    rs = st.fork()      # st itself took the raising branch: keep a copy of it as the fork
+                rs.env = dict(saved_env)
+                rs.inline_depth = depth
+                self._pending_forks.append(rs)
+            keep = normal[0]
+            if keep is not st:
+                st.__dict__.update(keep.__dict__)
         st.env = saved_env
         if st.status == 'raise':
             exc = st.exc
